@@ -169,7 +169,17 @@ pub enum Op {
     },
     /// Wait until `secs` seconds (+ offset) after the n-th delivery received on `sub` (client-side
     /// receive time): operations issued exactly when a lease runs out.
-    SleepUntilLeaseEnd { sub: String, nth: u32, secs: i32, offset_us: i64 },
+    SleepUntilLeaseEnd {
+        sub: String,
+        nth: u32,
+        secs: i32,
+        offset_us: i64,
+        /// Count from the invocation of the Pull that received the delivery (the earliest possible
+        /// hand-out) instead of from its receipt: with a negative offset the step is then certainly
+        /// issued before the lease can end.
+        #[serde(default)]
+        from_invoke: bool,
+    },
     /// Half-close: end the request stream, keep reading responses.
     StreamCloseReq { slot: u32 },
     /// Drop both directions (client went away).
